@@ -55,14 +55,32 @@ ResMatches(code, res) == code = -1 \/ (code = 0 /\ res = "ok") \/ (code = 1 /\ r
 LoadMatches(e, m, r) == /\ e = -1 \/ (e = 0 /\ r.ok) \/ (e = 1 /\ ~r.ok)
                         /\ m = r.m
 
-\* a file whose swamp name is incomplete (hd = 1) holds no record; once bytes follow the header the reader may take
-\* them for the name and find no complete block behind it: error or empty map, by the bytes
-LoadObserved(e, m, d) == \/ LoadMatches(e, m, Load(d))
-                         \/ d.ex /\ d.hd = 1 /\ e \in {0, -1} /\ m = Empty
-                         \/ TornRun(d) /\ LoadMatches(e, m, TornRunPrefix(d))
-                         \* a misplaced block lands on the first bytes of the data: the reader fails, or finds a
-                         \* garbage header that claims more than the file holds and stops with nothing
-                         \/ d.ex /\ d.hd = 2 /\ d.clob /\ e \in {0, -1} /\ m = Empty
+\* What the real reader can make of the file.  Besides Load(d):
+\*  - a deviation allows, it does not force (LoadD(d, FALSE));
+\*  - a file whose swamp name is incomplete (hd = 1) holds no record; once bytes follow the header the reader may
+\*    take them for the name and find no complete block behind it: error or empty map, by the bytes;
+\*  - torn pieces in the middle of the file: error, or end of file right there (TornRun);
+\*  - a misplaced block on the first bytes of the data: error, or a garbage header that claims more than the file
+\*    holds, i.e. nothing.
+PossibleLoads(d) ==
+  {Load(d), LoadD(d, FALSE)}
+  \cup (IF d.ex /\ d.hd = 1 THEN {OkRes(Empty)} ELSE {})
+  \cup (IF TornRun(d) THEN {TornRunPrefix(d)} ELSE {})
+  \cup (IF d.ex /\ d.hd = 2 /\ d.clob THEN {OkRes(Empty)} ELSE {})
+LoadObserved(e, m, d) == \E r \in PossibleLoads(d) : LoadMatches(e, m, r)
+
+\* A compaction ran inside the call (the driver saw the rename of the temporary file): the file now holds exactly
+\* what the compactor's reader saw, as one block of inserts.  Compaction is not modelled beyond that (C03).
+LiveEntries(m) == SelectSeq([k \in 1..Cardinality(Keys) |->
+                     [op |-> "ins", k |-> k, v |-> m[k], kc |-> "ok", rep |-> 1, ak |-> k, av |-> Nil]],
+                   LAMBDA x : x.v # Nil)
+DiskFromMap(m) == [NoDisk EXCEPT !.ex = TRUE, !.hd = 2,
+                     !.ch = IF LiveEntries(m) = <<>> THEN <<>> ELSE <<BlockOf(LiveEntries(m))>>,
+                     !.nb = IF LiveEntries(m) = <<>> THEN 0 ELSE 1, !.ne = Len(LiveEntries(m))]
+Compacted(e) == "cx" \in DOMAIN e /\ e.cx = 1
+Rewrite == \E r \in PossibleLoads(disk) : r.ok /\ disk' = DiskFromMap(r.m)
+AfterEvent(e) == IF Compacted(e) THEN Rewrite /\ UNCHANGED <<w, pend, call, ref, fm, dur, bmaps, crashobs, cnt>>
+                 ELSE UNCHANGED vars
 
 EntryOf(e) == [op |-> e.op, k |-> e.k, v |-> e.v, kc |-> e.kc, rep |-> e.rep, ak |-> e.ak, av |-> e.av]
 
@@ -98,13 +116,15 @@ TrReturn ==
   /\ (Ev.fk # "") = call.faulted
   /\ inflight' = FALSE
   /\ Advance
-  /\ UNCHANGED <<vars, hid, run>>
+  /\ AfterEvent(Ev)
+  /\ UNCHANGED <<hid, run>>
 
 TrLoad ==
   /\ HaveEv /\ Ev.ev = "load" /\ ~inflight /\ Quiescent /\ run = -1
   /\ LoadObserved(Ev.err, Ev.m, disk)
   /\ Advance
-  /\ UNCHANGED <<vars, hid, run, inflight>>
+  /\ AfterEvent(Ev)
+  /\ UNCHANGED <<hid, run, inflight>>
 
 \* ---- crash branches
 TrEnterCut ==
